@@ -21,7 +21,7 @@ ROOT="$(dirname "$HERE")"
 TH="$("$HERE/treehash.sh" "$REPO")-$(cat "$HERE/mkvariant.sh" "$HERE"/cfg/* 2>/dev/null | sha1sum | cut -c1-6)"
 CACHE="$ROOT/.cache/$TH"
 OUT="$CACHE/$V"
-mkdir -p "$CACHE"
+mkdir -p "$CACHE"; touch "$CACHE/.lastuse"
 exec 9>"$CACHE/.lock.$V"
 flock 9
 if [ -f "$OUT/.ok" ]; then echo "$OUT"; exit 0; fi
@@ -85,6 +85,6 @@ case "$V" in
 esac
 if [ ! -f "$OUT/libmpir.a" ]; then echo "variant $V failed; see $LOG" >&2; tail -30 "$LOG" >&2; exit 2; fi
 touch "$OUT/.ok"
-# keep only the two most recent tree hashes
-ls -1dt "$ROOT/.cache"/*/ 2>/dev/null | tail -n +3 | while read d; do rm -rf "$d"; done
+# bound the cache: beyond the four most recently used tree hashes, drop those not used for 45 minutes (never one a running check may still be using)
+ls -1t "$ROOT/.cache"/*-*/.lastuse 2>/dev/null | tail -n +5 | while read f; do if [ -n "$(find "$f" -mmin +45 2>/dev/null)" ]; then rm -rf "$(dirname "$f")"; fi; done
 echo "$OUT"
